@@ -75,6 +75,19 @@ def step (g : Group) (toks : List String) : Group × String :=
       | some g' => (g', "ok")
       | none => (g, "err-too-big")
     | none => (g, "bad-op")
+  | "writerot" :: rest =>
+    -- a write during which the size-limit ticker fires: `Encode` hands the whole record to the
+    -- group in ONE `Write`, so the check runs after the record (w = number of `Write` calls)
+    match hexOf rest "data", natOf rest "sync" with
+    | some d, some sy =>
+      if !g.isOpen then (g, "bad-op") else
+      match write P S g d with
+      | some g1 =>
+        let (g2, r) := checkHeadSizeLimit g1
+        let g3 := if sy ≠ 0 then flushAndSync g2 else g2
+        (g3, s!"ok w=1 rotated={r} " ++ dump g3)
+      | none => (g, "err-too-big")
+    | _, _ => (g, "bad-op")
   | ["sync"] => if !g.isOpen then (g, "bad-op") else (flushAndSync g, "ok")
   | ["rotate"] =>
     if !g.isOpen then (g, "bad-op") else
